@@ -6,6 +6,12 @@
 (* The table (ndjson, env TRACE) has one line per script line:              *)
 (*   {"op":"E","c":[[input, encode(input), decode(encode(input))], ...]}    *)
 (*   {"op":"D","c":[[text, decode(text)], ...]}                             *)
+(* Round 3, sweeps (one case = 256 calls, the byte / character at position  *)
+(* pos of the case's string running over 0..255):                           *)
+(*   {"op":"ES","pos":p,"c":[[input, [elen,p1,p2,dlen,dp, ... 256 x 5]], ...]}  *)
+(*   {"op":"DS","pos":p,"c":[[text, [[lo,hi,v], ...]], ...]}   (run-length)    *)
+(* see harness/base64/driver.cpp for the packing; TLC evaluates L1 for each *)
+(* of the 256 strings of a case.                                            *)
 (* Every case is one TLC state <<l, j>> (line, case in line); the next      *)
 (* state exists only if the recorded outputs are what L1 demands, so the    *)
 (* search is a chain and its length is the number of accepted cases.  On    *)
@@ -19,26 +25,63 @@ VARIABLES l, j
 
 Table == ndJsonDeserialize(IOEnv.TRACE)
 
+Ops == {"E", "D", "ES", "DS"}
+
+(* ---- packing used by the sweep ops (strings of at most 4 / 3 elements as numbers below 2^31) *)
+Pack2(e, i)  == ByteOr0(e, i) * 256 + ByteOr0(e, i + 1)
+PackBytes(d) == IF Len(d) = 0 THEN 0 ELSE IF Len(d) = 1 THEN d[1] ELSE IF Len(d) = 2 THEN d[1] * 256 + d[2]
+                ELSE d[1] * 65536 + d[2] * 256 + d[3]                            \* Len(d) <= 3
+Subst(t, p, v) == [t EXCEPT ![p] = v]
+ESRow(s) == LET en == Encode(s) IN <<Len(en), Pack2(en, 1), Pack2(en, 3), Len(s), PackBytes(s)>>     \* encode, and decode(encode) = s
+DSVal(t) == LET d == DecodePrefix(t) IN Len(d) * 16777216 + PackBytes(d)
+
+ESGood(e, c, v) == LET x == ESRow(Subst(c[1], e.pos, v)) IN \A k \in 1..5 : c[2][5 * v + k] = x[k]
+ESOK(e, c) == /\ e.pos \in 1..Len(c[1]) /\ Len(c[1]) <= 3 /\ Len(c[2]) = 1280
+              /\ \A v \in 0..255 : ESGood(e, c, v)
+Tiles(runs) == /\ Len(runs) >= 1 /\ runs[1][1] = 0 /\ runs[Len(runs)][2] = 255
+               /\ \A k \in 1..Len(runs) : runs[k][1] <= runs[k][2]
+               /\ \A k \in 1..(Len(runs) - 1) : runs[k + 1][1] = runs[k][2] + 1
+DSOK(e, c) == /\ e.pos \in 1..Len(c[1]) /\ Len(c[1]) <= 5 /\ Tiles(c[2])
+              /\ \A k \in 1..Len(c[2]) : \A v \in c[2][k][1]..c[2][k][2] : DSVal(Subst(c[1], e.pos, v)) = c[2][k][3]
+
+(* second, independent route for an encoder case: the shape of the recorded output and L1's DECODER applied to it *)
+ShapeOK(c) == /\ Len(c[2]) = EncLen(Len(c[1]))
+              /\ AlphaRun(c[2]) = Len(c[2]) - ((3 - (Len(c[1]) % 3)) % 3)
+              /\ \A i \in (AlphaRun(c[2]) + 1)..Len(c[2]) : c[2][i] = Pad
+              /\ DecodePrefix(c[2]) = c[1]
+
 Expected(e, c) ==
     IF e.op = "E" THEN [encode |-> Encode(c[1]), decode_of_encode |-> c[1]]
     ELSE IF e.op = "D" THEN [decode |-> DecodePrefix(c[1])]
+    ELSE IF e.op = "ES" THEN
+         IF ~(e.pos \in 1..Len(c[1]) /\ Len(c[1]) <= 3 /\ Len(c[2]) = 1280) THEN [precondition |-> "malformed ES case"]
+         ELSE LET v == CHOOSE v \in 0..255 : ~ESGood(e, c, v) IN
+              [input |-> Subst(c[1], e.pos, v), elen_p1_p2_dlen_dp |-> ESRow(Subst(c[1], e.pos, v)), encode |-> Encode(Subst(c[1], e.pos, v))]
+    ELSE IF e.op = "DS" THEN
+         IF ~(e.pos \in 1..Len(c[1]) /\ Len(c[1]) <= 5 /\ Tiles(c[2])) THEN [runs_must_tile |-> <<0, 255>>]
+         ELSE LET k == CHOOSE k \in 1..Len(c[2]) : \E v \in c[2][k][1]..c[2][k][2] : DSVal(Subst(c[1], e.pos, v)) # c[2][k][3]
+                  v == CHOOSE v \in c[2][k][1]..c[2][k][2] : DSVal(Subst(c[1], e.pos, v)) # c[2][k][3] IN
+              [text |-> Subst(c[1], e.pos, v), decode |-> DecodePrefix(Subst(c[1], e.pos, v))]
     ELSE [no_such_op |-> e.op]
 
 CaseOK(e, c) ==
     \/ /\ e.op = "E"
        /\ c[2] = Encode(c[1])            \* RFC 4648 encoding
        /\ c[3] = c[1]                    \* base64decode(base64encode(s)) == s
+       /\ Len(c[1]) <= 400 => ShapeOK(c)
     \/ /\ e.op = "D"
        /\ c[2] = DecodePrefix(c[1])
+    \/ /\ e.op = "ES" /\ ESOK(e, c)
+    \/ /\ e.op = "DS" /\ DSOK(e, c)
 
 TInit == l = 1 /\ j = 1
 
 TNext ==
     /\ l <= Len(Table)
     /\ LET e == Table[l] IN
-        /\ IF e.op \in {"E", "D"} /\ CaseOK(e, e.c[j])
+        /\ IF e.op \in Ops /\ CaseOK(e, e.c[j])
              THEN TRUE
-             ELSE PrintT(<<"REJECT", l, j, IF e.op \in {"E", "D"} THEN Expected(e, e.c[j]) ELSE [no_such_op |-> e.op]>>) /\ FALSE
+             ELSE PrintT(<<"REJECT", l, j, IF e.op \in Ops THEN Expected(e, e.c[j]) ELSE [no_such_op |-> e.op]>>) /\ FALSE
         /\ IF j < Len(e.c) THEN l' = l /\ j' = j + 1
                            ELSE l' = l + 1 /\ j' = 1
 
